@@ -12,8 +12,11 @@ STEPS = [('Sd', 0, False), ('Su', 1, False), ('Se', 2, False), ('Sm', 3, True), 
 SNU = [('SveL', 12, False), ('SvmL', 13, True), ('SvtL', 14, False)]
 
 
-def run(chk, c):
-    from .C04 import CONST_AX
+def run(chk, c, steps=None, pid='C04', const_ax=None, do_goldstone=True):
+    if const_ax is None:
+        from .C04 import CONST_AX
+    else:
+        CONST_AX = const_ax
     mod, dem = c.mod, c.dem
     fam = 'spectrum-glue'
     herm = [n for n in mod.functions if 'fs_diagonalize_hermitian_errbd' in n and 'Li2E' in n]
@@ -56,8 +59,9 @@ def run(chk, c):
     ex.undefined_handler = ext_handler(dem, on_call=on_call)
     ex.div_no_fork = True
     ex.rid_counter = c.ex.rid_counter + 1000
+    ex.fresh_cnt = c.ex.fresh_cnt + 100000        # fresh names must not collide with those of the first executor
     # share the naming of the model fields: reuse the probed state of the first executor
-    for name, k, monitored in STEPS + SNU:
+    for name, k, monitored in (steps if steps is not None else STEPS + SNU):
         chk.functions.add('calculate_M' + name)
         s2 = ex.start('vx_calc', [c.mp, k], c.st.fork())
         captured.clear()
@@ -76,14 +80,20 @@ def run(chk, c):
             # (a) the matrix handed over is the oracle-checked mass matrix (entries proven in part 1)
             for i in range(2):
                 for j in range(2):
+                    from .C08b import expand_quots as _eq
+                    sq = []
+                    for ex__ in (ex, c.ex):
+                        for (k__, a__, r__) in ex__.leaves:
+                            if k__ == 'sqrt':
+                                sq.append(z3.And(r__ >= 0, r__ * r__ == _eq(ex__, zr(a__[0]))))
                     r, m = chk.prove('glue:%s:input[%d,%d]' % (name, i, j),
-                                     list(rets[0].pc[:0]) + CONST_AX + C02.quotient_equalities(ex) + C02.quotient_equalities(c.ex) +
-                                     [zr(captured['m'][i][j]) != c.mats[(name, i, j)]], family=fam,
+                                     list(rets[0].pc[:0]) + CONST_AX + sq + C02.quotient_equalities(ex) + C02.quotient_equalities(c.ex) +
+                                     [_eq(ex, zr(captured['m'][i][j])) != _eq(c.ex, c.mats[(name, i, j)])], family=fam,
                                      sample={'obligation': 'calculate_M%s diagonalises get_mass_matrix_%s()' % (name, name)})
                     if r == 'sat':
-                        chk.violation('glue:%s:input' % name, 'C04:glue-input:%s' % name,
+                        chk.violation('glue:%s:input' % name, '%s:glue-input:%s' % (pid, name),
                                       'calculate_M%s does not diagonalise the %s mass matrix' % (name, name),
-                                      '#!/bin/sh\ncd %s && exec python3-vt -m props.replay_c04 spectrum\n' % VERIF)
+                                      '#!/bin/sh\ncd %s && exec python3-vt -m props.replay_%s spectrum\n' % (VERIF, pid.lower()))
         if name in ('SveL', 'SvmL', 'SvtL'):
             w = None
         else:
@@ -102,18 +112,19 @@ def run(chk, c):
                                      sample={'obligation': 'calculate_M%s: a tachyon is flagged on this path %s' % (
                                          name, 'only if an eigenvalue is negative' if tach else '- then no eigenvalue is negative')})
                     if r == 'sat':
-                        chk.violation(tag, 'C04:tachyon:%s' % name,
+                        chk.violation(tag, '%s:tachyon:%s' % (pid, name),
                                       'calculate_M%s: %s' % (name, 'tachyon flagged although all eigenvalues are non-negative' if tach else
                                                              'eigenvalues (%s, %s) with a negative one and |w0| <= |w1| but no tachyon flagged' % (
                                                                  m.real(w[0]), m.real(w[1]))),
                                       '#!/bin/sh\ncd %s && exec python3-vt -m props.replay_c04 tachyon %s\n' % (VERIF, name))
                     if tach and tach[0][1]['name'] not in (name, '?'):
-                        chk.violation(tag, 'C04:tachyon-name:%s' % name, 'calculate_M%s flags tachyon "%s"' % (name, tach[0][1]['name']),
+                        chk.violation(tag, '%s:tachyon-name:%s' % (pid, name), 'calculate_M%s flags tachyon "%s"' % (name, tach[0][1]['name']),
                                       '#!/bin/sh\ncd %s && exec python3-vt -m props.replay_c04 tachyon %s\n' % (VERIF, name))
         chk.record('glue:' + name, 'discharged', family=fam,
                    sample={'obligation': 'calculate_M%s executed with the decomposition contract: %d paths' % (name, len(rets))})
     chk.absorb_executor(ex)
-    goldstone(chk, c)
+    if do_goldstone:
+        goldstone(chk, c)
 
 
 def goldstone(chk, c, pid='C04', fn_name='reorder_DRbar_masses'):
